@@ -252,6 +252,28 @@ def run_forked(dc, directory, kind, settings, program, kill_at, logpath, maxlen=
     return how, status, read_log(logpath)
 
 
+def fork_call(fn, logpath, timeout=60):
+    """Runs fn() in a forked child (which must end in os._exit).  Returns ('killed'|'exited'|'watchdog', status, log)."""
+    pid = os.fork()
+    if pid == 0:
+        try:
+            fn()
+        finally:
+            os._exit(3)
+    deadline = time.monotonic() + timeout
+    while True:
+        wpid, status = os.waitpid(pid, os.WNOHANG)
+        if wpid:
+            break
+        if time.monotonic() > deadline:
+            os.kill(pid, signal.SIGKILL)
+            os.waitpid(pid, 0)
+            return 'watchdog', None, read_log(logpath)
+        time.sleep(0.0005)
+    how = 'killed' if os.WIFSIGNALED(status) else 'exited'
+    return how, status, read_log(logpath)
+
+
 def read_log(path):
     out = []
     try:
